@@ -7,7 +7,7 @@
    the shape [shape r] ("non-empty, '-' only as first byte") of the renderings
    of the bounds that occur — which the harness asserts on every rendering it
    sees. *)
-From Coq Require Import ZArith List Bool.
+From Coq Require Import ZArith List Bool Permutation.
 From Tally Require Import Model.Buckets Model.Statsd Proof.StatsdP.
 Import ListNotations.
 Open Scope Z_scope.
@@ -33,6 +33,15 @@ Theorem C18_history : forall fmtf fmtd c ops,
   calls (run fmtf fmtd c ops) = map (the_call fmtf fmtd c) (filter is_report ops).
 Proof. exact calls_run. Qed.
 Print Assumptions C18_history.
+
+(* the reporter keeps no state between calls: whatever the order in which report calls
+   reach it (several scopes / goroutines sharing one reporter), the client sees the same
+   multiset of calls - one per report call *)
+Theorem C18_order_independent : forall fmtf fmtd c ops ops',
+  Permutation ops ops' ->
+  Permutation (calls (run fmtf fmtd c ops)) (calls (run fmtf fmtd c ops')).
+Proof. exact run_perm. Qed.
+Print Assumptions C18_order_independent.
 
 (* int64(value) is the truncation toward zero of the exact value num/den of the float *)
 Theorem C18_gauge_truncates : forall b,
@@ -172,3 +181,12 @@ Example C18_example_percent_name :
     [[37; 115; 37; 46; 45] ++ INFINITY ++ [45; 66];        (* %s%.-infinity-B *)
      [37; 115; 37; 46; 66; 45] ++ INFINITY].               (* %s%.B-infinity *)
 Proof. vm_compute. reflexivity. Qed.
+
+Example C18_example_order :
+  Permutation [OTimer [116] [] 5; OFlush; OCounter [99] [] 7] [OCounter [99] [] 7; OTimer [116] [] 5; OFlush] /\
+  calls (run toyf toyd (Cfg 0 0) [OTimer [116] [] 5; OFlush; OCounter [99] [] 7]) =
+    [Call CTiming [116] 5 ONE32 0; Call CInc [99] 7 ONE32 0].
+Proof.
+  split; [|vm_compute; reflexivity].
+  apply Permutation_sym, (Permutation_cons_app [OTimer [116] [] 5; OFlush] []), Permutation_refl.
+Qed.
